@@ -1122,7 +1122,7 @@ fn fwd_history(f: &Fwd) -> History {
 			steps.push(XStep::Compact { cutoff });
 		}
 	}
-	History { var: false, seed: f.seed, steps }
+	History { var: false, var_prunable: false, seed: f.seed, steps }
 }
 
 #[derive(Clone, Debug)]
@@ -1233,7 +1233,7 @@ fn exhaustive_cases(max_n: u32, max_sub: u32) -> Vec<SegCase> {
 					steps.push(XStep::Compact { cutoff: 2 });
 				}
 				v.push(SegCase {
-					tree: Tree::Store(History { var: false, seed: 7, steps }),
+					tree: Tree::Store(History { var: false, var_prunable: false, seed: 7, steps }),
 					seed: (n as u64) << 32 | mask as u64,
 					heights: (0..=4).collect(),
 					only: None,
